@@ -35,6 +35,7 @@ RULE += ' Round 8: selector array objects shared between programs (negative entr
 RULE += ' Round 9: scalars -2, -4, -1 and 1.1.'
 RULE += ' Round 10: h = g; h op= c for the six augmented assignments (g must keep its values); 70000-row recordings read through expressions that keep one channel or reorder channels.'
 RULE += ' Round 11: half-precision recordings (array / .npy / flat) with every one-operator program and a grid of two-operator programs; a 12-file recording read through a reader and its relatives with far-apart row lists.'
+RULE += ' Round 12: a boolean channel mask given as a Python list.'
 EXHAUSTIVE = {'quick': True, 'thorough': True}
 EXHAUSTIVE_SCOPE = {'quick': 'all programs of depth <= 2 on int16 and float32 (array backend)',
                     'thorough': 'depth <= 2 on every dtype, depth 3 on int16 (array backend)'}
